@@ -190,6 +190,7 @@ def run(ctx):
     games = sc.standard_games(ctx, n, 3, 9 if ctx.quick else 10)
     recs = sc.run_games(ctx, games, limit=10 if ctx.quick else 30, tag="c01")
     sc.correspondence(ctx, recs, "cmp_probs", "c01")
+    sc.padding_check(ctx, recs, ("probs",), 40 if ctx.quick else 400, "c01")
     check_values(ctx, recs)
     exact_vs_float(ctx, recs)
     float_trace_monotone(ctx, recs)
